@@ -190,6 +190,23 @@ def eval_term(t, leaf):
         return int(not v) if v in (0, 1) else (~v) & ((1 << (BITS.get(t[2], 64) if len(t) > 2 else 64)) - 1)
     if h == "call" and t[1].endswith(("::from", "::into")) and len(t[2]) == 1:
         return eval_term(t[2][0], leaf)
+    if h == "call" and len(t[2]) == 2 and t[1].split("::")[-1] in ("max", "min", "saturating_sub", "abs_diff") and \
+            (t[1].startswith(("std::cmp::", "core::num::", "core::cmp::")) or "::Ord::" in t[1]):
+        try:
+            a, b = eval_term(t[2][0], leaf), eval_term(t[2][1], leaf)
+        except NotEvaluable:
+            a = None
+        if a is not None:
+            n = t[1].split("::")[-1]
+            if n == "max":
+                return max(a, b)
+            if n == "min":
+                return min(a, b)
+            if n == "saturating_sub":
+                return max(a - b, 0)
+            if n == "abs_diff":
+                return abs(a - b)
+            raise NotEvaluable(t)     # widths are not recorded on call terms: wrapping / saturating additions are not evaluated
     if h == "call" and FACTS is not None:
         try:
             return leaf(t)
@@ -326,7 +343,7 @@ def _cond_holds(t, cond, leaf):
     return v == cond[1] if cond[0] == "is" else v not in cond[1]
 
 
-def eval_gated(body, pt, local, use_bb, leaf, use_idx=None):
+def eval_gated(body, pt, local, use_bb, leaf, use_idx=None, on_def=None):
     """Value of `local` as seen at (use_bb, use_idx) for one valuation of the inputs, in loop-free code: among the
     definitions of the local whose branch conditions hold under the valuation, the one latest in dominance order
     (gated single assignment).  Raises NotEvaluable when the choice is not determined."""
@@ -360,6 +377,12 @@ def eval_gated(body, pt, local, use_bb, leaf, use_idx=None):
             except NotEvaluable:
                 if (gb, cond) in use_conds:
                     continue
+                # `?` on a fallible call: the value is evaluated for the error-free path
+                if isinstance(t, tuple) and t and t[0] == "discr" and isinstance(t[1], tuple) and t[1] and t[1][0] == "try":
+                    if cond == ("is", 0) or (cond[0] == "notin" and 0 not in cond[1]):
+                        continue
+                    okk = False
+                    break
                 raise
         if okk:
             live.append((bb, i, s))
@@ -377,10 +400,25 @@ def eval_gated(body, pt, local, use_bb, leaf, use_idx=None):
             raise NotEvaluable(("ambiguous", local))
     bb, i, s = best
     rv = s.rv
+    if on_def is not None:
+        v = on_def(bb, i, s)
+        if v is not None:
+            return v
     if rv.k == "use" and rv.op.place is not None and not rv.op.place.proj:
-        return eval_gated(body, pt, rv.op.place.local, bb, leaf, i)
+        return eval_gated(body, pt, rv.op.place.local, bb, leaf, i, on_def)
     t = pt.at(bb, i).of_rvalue(rv, bb)
 
     def leaf2(q):
         return leaf(q)
     return eval_term(t, leaf2)
+
+
+def chunk_loop_body(facts):
+    """The body that holds the LZMA2 chunk loop: the one calling both chunk parsers (found by what it calls, not by name)."""
+    for b in facts.bodies:
+        if b.promoted is not None:
+            continue
+        names = [flow.callee(blk.term) or "" for blk in b.calls()]
+        if any(n.endswith("parse_lzma") for n in names) and any(n.endswith("parse_uncompressed") for n in names):
+            return b
+    return None
